@@ -2,10 +2,14 @@
 # MANIFEST.setup_cmd: full offline build of the Coq development (every .vo, no -vos).
 set -e
 cd "$(dirname "$0")/coq"
-coq_makefile -f _CoqProject -o Makefile >/dev/null
-timeout 3000 make -j16 2>&1 | tail -5
+mkdir -p cases
+flock .build.lock coq_makefile -f _CoqProject -o Makefile >/dev/null
+if ! flock .build.lock timeout 3000 make -j16 > .setup.log 2>&1; then
+  tail -40 .setup.log; echo "setup: make failed" >&2; exit 1
+fi
+tail -3 .setup.log
 # fail-closed self-grep: nothing in the development may declare an axiom
-if grep -rnE '\b(Admitted|admit|Axiom|Parameter|Conjecture)\b|Unset Guard|bypass_check' theories --include=*.v | grep -v '^\S*:[0-9]*:\s*(\*' ; then
+if grep -rnE '\b(Admitted|admit|Axiom|Parameter|Conjecture)\b|Unset Guard|bypass_check' theories --include=*.v ; then
   echo "setup: forbidden construct found" >&2; exit 1
 fi
 echo "setup: ok"
